@@ -83,7 +83,50 @@ deliver 1 5
 send 1 4 70
 deliver 0 6"""
 
+# victim = client 2 (a plain member): the cases the two scripts above never reach — the same rumor under a second wrapper id,
+# the echo of an own message / own pending commit / own merged commit, clear_pending_commit, a proposal that is only stored,
+# leave_group, the commit that removes the victim.  TIES ONLY (write sequences, class sequences of the call kinds the model
+# classifies): the oracle is not evaluated on it — a re-issued local call followed by the echo of its ORIGINAL event is an
+# artefact of the procedure, and Model.CrashSeq claims no recovery semantics for the echo / eviction cases.
+S_MEMBER = """client 0 mem 5
+client 1 mem 5
+client 2 sql 5
+kp 0
+kp 1
+kp 2
+create 0 0 5 2 1,2
+welcome 1 0 0
+accept 1 0 0
+welcome 2 1 0
+welcome 2 1 1
+accept 2 1 0
+send 2 1 10
+selfupdate 2 20
+clear 2
+deliver 2 0
+deliver 0 0
+deliver 1 0
+selfupdate 2 30
+send 2 2 35
+deliver 2 2
+deliver 0 2
+deliver 1 2
+deliver 2 3
+deliver 2 2
+leave 1 40
+deliver 2 4
+deliver 0 4
+merge 0
+deliver 2 5
+send 0 3 50
+deliver 2 6
+leave 2 60
+deliver 0 7
+merge 0
+deliver 2 8"""
+
 SCRIPTS = {"invitee": (1, S_INVITEE), "creator": (0, S_CREATOR)}
+TIE_SCRIPTS = {"member": (2, S_MEMBER)}
 
 def load_corpus():
     d = os.path.join(C.VERIF, "corpus", "C12")
@@ -107,6 +150,7 @@ def cases_for(tier):
     instance's memory (rollback) replay the whole script per crash point: sampled in the quick tier"""
     memk = 24 if tier == "quick" else 0
     cs = [{"id": name, "victim": v, "script": s.split("\n"), "maxk": 0, "memk": memk} for name, (v, s) in SCRIPTS.items()]
+    cs += [{"id": name, "victim": v, "script": s.split("\n"), "maxk": 0, "memk": memk, "ties_only": True} for name, (v, s) in TIE_SCRIPTS.items()]
     return cs + load_corpus_with(0, memk)
 
 def load_corpus_with(maxk, memk):
@@ -132,14 +176,18 @@ def proj(p):
     return {"none": False, "recE": int(m.group(1)), "mlsE": int(m.group(2)), "sec": m.group(3), "snaps": int(m.group(4)),
             "pend": int(m.group(5)), "msgs": int(m.group(6)), "pm": pm}
 
-def call_kind(cmd, result, labels):
+def call_kind(cmd, result, labels, pre=None, post=None):
     c = cmd.split("_")[0]
     if c == "deliver":
+        pm_pre = pre.rsplit("/pm:", 1)[1] if pre and "/pm:" in pre else "-"
+        if result == "app" and pm_pre == "c": return "process_own_message"            # the echo of a message this client created
+        if result == "commit" and pm_pre == "k": return "process_own_commit"         # the echo of a commit this client created (pending or merged)
+        if result == "commit" and post and post.endswith("/pm:p"): return "process_commit_evicted"   # the commit removed this client
         if result == "app": return "process_application"
         if result == "proposal-committed" or result in ("pending", "ignored"): return "process_proposal"
         if result == "commit": return "process_commit_rollback" if "restore" in (labels or "") else "process_commit"
         return "process_other"
-    return {"welcome": "process_welcome", "accept": "accept_welcome", "send": "create_message", "selfupdate": "self_update",
+    return {"welcome": "process_welcome", "accept": "accept_welcome", "decline": "decline_welcome", "send": "create_message", "selfupdate": "self_update",
             "add": "add_members", "remove": "remove_members", "data": "update_group_data", "merge": "merge_pending_commit",
             "create": "create_group", "kp": "create_key_package", "leave": "leave_group", "clear": "clear_pending_commit"}.get(c, c)
 
@@ -162,6 +210,8 @@ def classify(row, base, restart):
             return "torn-accept"
         if torn:
             return "torn-merge" + (":heals-at-next-commit" if later_ok and proj(row["end"])["recE"] == proj(row["end"])["mlsE"] else "")
+        if pre["pend"] == 1 and mid["pend"] == 0 and mid["mlsE"] == pre["mlsE"]:
+            return "pending-commit-lost"          # the own pending commit met on the wire: OpenMLS deleted it, the merged state was never written
         if base["callkind"] == "process_welcome" and not retry_ok:
             return "dedup-record-blocks-retry"
         if not retry_ok and all(mid[f] == post[f] for f in ("recE", "mlsE", "sec", "snaps", "pend", "msgs")) and mid["pm"] == "none" and post["pm"] != "none" \
@@ -231,7 +281,7 @@ def run(cases):
             b = {"i": int(t[1]), "ticks": int(t[2]), "kind": t[3], "labels": kv(line, "labels"), "cmd": kv(line, "cmd"),
                  "result": line.split(" => ")[1].split()[0], "pre": kv(line, "pre"), "post": kv(line, "post"),
                  "tabspre": kv(line, "tabspre"), "tabspost": kv(line, "tabspost")}
-            b["callkind"] = call_kind(b["cmd"], b["result"], b["labels"])
+            b["callkind"] = call_kind(b["cmd"], b["result"], b["labels"], b["pre"], b["post"])
             cur["base"].append(b)
         elif t[0] == "basefinal":
             cur["basefinal"] = {"proj": kv(line, "proj"), "agree": kv(line, "agree")}
@@ -291,6 +341,18 @@ def oracle(cases):
                         "restart_divergent_calls": 0, "nonpanicking_points": 0}
     seen = set()
     for c in cases:
+        if c.get("ties_only"):
+            stats["tie_only_crash_points"] = stats.get("tie_only_crash_points", 0) + len(c["rows"]) + len(c["memrows"])
+            stats["tie_only_loads"] = stats.get("tie_only_loads", 0) + sum(r["loads"] == "1" for r in c["rows"] + c["memrows"])
+            stats.setdefault("tie_only_classes", {})
+            for r in c["rows"]:
+                key = f"{r['class'].split(':')[0]}:{r['callkind']}"
+                stats["tie_only_classes"][key] = stats["tie_only_classes"].get(key, 0) + 1
+            for r in c["rows"] + c["memrows"]:
+                if r["loads"] != "1":
+                    fails.append({"kind": "oracle", "signature": f"unloadable:{r['callkind']}", "what": f"{c['id']} call {r['i']} tick {r['k']}: the reopened store does not load",
+                                  "replay_body": case_text(c, r, "unloadable"), "case": c})
+            continue
         stats["calls"] += len(c["base"])
         stats["ticks_total"] += sum(b["ticks"] for b in c["base"])
         stats["restart_divergent_calls"] += sum(1 for r in c["restart"].values() if r["result"] != r["expected"])
@@ -361,6 +423,8 @@ def tie(cases):
             kind = b["callkind"]
             if kind not in model and kind not in seqs:
                 continue
+            if c.get("ties_only") and kind == "create_message":
+                continue                  # re-issued with a pending commit stored, then the echo of the ORIGINAL events: not comparable
             compared += 1
             obs = observed_classes(c, b["i"])
             def fits(want):
@@ -394,7 +458,7 @@ def open_findings_tie():
 
 def replay(path):
     """re-executes one core-level history: every crash point of the call named in the trace (or of all calls)"""
-    victim, lines, point = 1, [], None
+    victim, lines, point, ties_only = 1, [], None, False
     for l in open(path):
         l = l.strip()
         m = re.match(r"# crash point: call (\d+) .* tick (\d+)", l)
@@ -403,9 +467,9 @@ def replay(path):
         if not l or l.startswith("#"):
             continue
         if l.startswith("victim "):
-            victim = int(l.split()[1]); continue
+            victim = int(l.split()[1]); ties_only = "tiesonly" in l.split(); continue
         lines.append(l)
-    c = {"id": os.path.basename(path), "victim": victim, "script": lines, "maxk": 0, "memk": 0}
+    c = {"id": os.path.basename(path), "victim": victim, "script": lines, "maxk": 0, "memk": 0, "ties_only": ties_only}
     run([c])
     for b in c["base"]:
         print(f"call {b['i']} {b['callkind']} `{b['cmd']}` ticks={b['ticks']} labels={b['labels']} pre={b['pre']} post={b['post']}")
